@@ -137,11 +137,77 @@ def updHandler (scn : Json) : Json × Bool × String :=
     let ok := (parents.any fun c => (o.digest c).isSome) || satAll o parents v
     (verObs o tags "" v, ok, if ok then "" else "C17:model-update-violates")
 
+def pkgJson (p : Pkg) : Json :=
+  Json.mkObj [("name", .str p.name), ("source", .str p.source), ("version", .str p.version), ("typed", .bool p.typed),
+    ("deps", Json.arr (p.deps.map depJson).toArray)]
+
+def resErrStr : ResErr → String
+  | .none => ""
+  | .initDag => "initDag"
+  | .missingDirect => "missing"
+  | .missingDeps => "missing"
+  | .traceMissing => "traceMissing"
+  | .notInGraph => "notInGraph"
+  | .notLockPackage => "notLockPackage"
+  | .digestMismatch => "digestMismatch"
+  | .badConstraint => "badConstraint"
+  | .badVersion => "badVersion"
+  | .incompatible => "incompatible"
+
+def resHandler (scn : Json) : Json × Bool × String :=
+  let o := mkOracle (obj scn "oracle")
+  let lock := (arr scn "lock").map pkgOf
+  let self := pkgOf (obj scn "self")
+  let r := resolve o (bool scn "upg") lock self
+  let out := Json.mkObj [("found", .num (Lean.JsonNumber.fromInt r.found)), ("installed", .num (Lean.JsonNumber.fromInt r.installed)),
+    ("invalid", .num (Lean.JsonNumber.fromInt r.invalid)), ("err", .str (resErrStr r.err)),
+    ("lock", Json.arr (r.lock.map pkgJson).toArray)]
+  -- model-side monitor: satisfied only if every direct dependency is a lock package
+  let ok := r.err != .none || self.deps.all (fun e => r.lock.any (fun p => p.source == e.pkg))
+  (out, ok, if ok then "" else "C17:model-satisfied-with-missing-direct")
+
+def recErrStr : RecErr → String
+  | .none => ""
+  | .buildDag => "buildDag"
+  | .sortDag => "sortDag"
+  | .findInstall e => "findInstall:" ++ vErrStr e
+  | .noVersion => ""
+  | .findUpdate e => "findUpdate:" ++ vErrStr e
+  | .panic => "panic"
+
+def recHandler (scn : Json) : Json × Bool × String :=
+  let o := mkOracle (obj scn "oracle")
+  let lock := (arr scn "lock").map pkgOf
+  let inst := (arr scn "installed").map fun j => (str j "source", str j "version")
+  let tags := (arr scn "tags").map fun j => (str j "repo", (bool j "fail", strs j "tags"))
+  let fetch : String → Option (List String) := fun id =>
+    match tags.lookup id with
+    | some (true, _) => none
+    | some (false, ts) => some ts
+    | none => some []
+  let order := match init o (bool scn "upg") lock with
+    | .ok (d, _) => d.keys
+    | .error _ => []
+  let r := reconcile o (bool scn "upg") (bool scn "down") lock order (fun id => inst.lookup id) fetch
+  let (act, src, ver) := match r.act with
+    | .nothing => ("none", "", "")
+    | .create s v => ("create", s, v)
+    | .update s v => ("update", s, v)
+  let repoTags := ((tags.lookup src).map (·.2)).getD []
+  let vo := if act == "none" then ("", "") else
+    (if hasTies (parseTags o repoTags) && (o.ver ver).isSome then "~" else ver, verKey o ver)
+  let out := Json.mkObj [("act", .str act), ("src", .str src), ("ver", .str vo.1), ("key", .str vo.2),
+    ("err", .str (recErrStr r.err)),
+    ("resolved", .str (match r.resolved with | some true => "True" | some false => "False" | none => ""))]
+  (out, true, "")
+
 def handler : Handler := fun scn =>
   match str scn "kind" with
   | "dag" => .ok (dagHandler scn)
   | "install" => .ok (instHandler scn)
   | "update" => .ok (updHandler scn)
+  | "resolve" => .ok (resHandler scn)
+  | "reconcile" => .ok (recHandler scn)
   | k => .error s!"unknown scenario kind {k}"
 
 end Xp.C17
